@@ -229,7 +229,14 @@ func applyShapeFault(sh *engine.Shape, f *engine.Fault) bool {
 		}
 		mode := 1 + int(f.N[0])%2
 		tt := []int{7, 7, 11, 8, 0}[int(f.N[1])%5]
-		sh.Offline = &engine.OfflineShape{Transient: tt, Expires: 1 + uint64(f.N[2]), Seed: 900 + uint64(f.N[2])%4, Forge: mode}
+		exp := 1 + uint64(f.N[2])
+		if sh.Offline != nil && sh.Offline.Forge == 0 && (f.N[0]>>1)%2 == 0 {
+			// the smallest step away from a genuine delegation: same expiry, same
+			// transient key TYPE, but the adversary's key and an offline signature the
+			// identity never made
+			tt, exp = sh.Offline.Transient, sh.Offline.Expires
+		}
+		sh.Offline = &engine.OfflineShape{Transient: tt, Expires: exp, Seed: 900 + uint64(f.N[2])%4, Forge: mode}
 		return true
 	case "offline_transplant":
 		if sh.Kind == "offsig" {
